@@ -66,6 +66,23 @@ var payloads = map[string]string{
 	"Uhardsoft": "- type: nofile\n  hard: 1\n  soft: 2\n",
 }
 
+var rtypes = []string{"AS", "CORE", "CPU", "DATA", "FSIZE", "LOCKS", "MEMLOCK", "MSGQUEUE", "NICE", "NOFILE", "NPROC", "RSS",
+	"RTPRIO", "RTTIME", "SIGPENDING", "STACK"}
+
+func init() {
+	var l, p, m string
+	for i, t := range rtypes {
+		l += fmt.Sprintf("- type: %s\n  hard: %d\n  soft: %d\n", strings.ToLower(t), i+1, i+1)
+		p += fmt.Sprintf("- type: RLIMIT_%s\n  hard: %d\n  soft: %d\n", t, i+1, i+1)
+		m += fmt.Sprintf("- type: Rlimit_%s%s\n  hard: %d\n  soft: %d\n", t[:1], strings.ToLower(t[1:]), i+1, i+1)
+	}
+	payloads["UallL"], payloads["UallP"], payloads["UallM"] = l, p, m
+	for id, name := range map[string]string{"Utype3": "RLIMIT__NOFILE", "Utype4": "LIMIT_STACK", "Utype5": "NOFILEX",
+		"Utype6": "RLIMIT_RLIMIT_NOFILE", "Utype7": "_CORE", "Utype8": "TAS"} {
+		payloads[id] = fmt.Sprintf("- type: %s\n  hard: 1\n  soft: 1\n", name)
+	}
+}
+
 func copyExe(src, dst string) error {
 	in, err := os.Open(src)
 	if err != nil {
